@@ -860,3 +860,203 @@ Example C03_model_contract_is_more_permissive :
   hist_of2 fx_cis ops = [EvC 2 (PArch 0 1 0); EvC 2 (PTmp 0 1); EvD 2 (PArch 0 1 0); EvMC 2 (PArch 0 1 0) (PTmp 0 1); EvD 2 (PTmp 0 1)] /\
   lc_ok (destroy_pals fx_cis) (hist_of2 fx_cis ops) = true /\ lc_live (destroy_pals fx_cis) (hist_of2 fx_cis ops) = [PArch 0 1 0].
 Proof. vm_compute. repeat split. Qed.
+
+(* ================================================================================================ *)
+(* 8. HISTORY LEVEL for the EXTENDED unlocked alphabet: clone, clear, clearArchetype, deferred destroy, builder edits *)
+(* proofs/LifecycleExtLang.v, LifecycleExtOps.v, LifecycleExtMain.v.
+   Scripts over ManagerExtMain.alpha_e -- the alphabet of C02_unlocked_ext_refines_on: everything of section 5 plus
+   destroy() (deferred: the entity is destroyed by the next update()), update(), clearArchetype, clear(), clone and one
+   builder edit (begin(e) / begin() .assign<..>(v)... .remove<..>()... .end()), all issued unlocked -- with the
+   hypotheses of C02_unlocked_ext_refines_on plus lc_cis_ok on the component table (section 5).  The history is hrun
+   (section 5).  The events of the new operations (function level, all states: 8d, 8e and section 3):
+     update          each marked handle goes through the checked destroyNow: the events of section 4 (arch_remove) per
+                     entity that is still alive, nothing for a stale request;
+     clearArchetype  clear_events of that archetype (section 3): every occupied cell of a tracked component dies once;
+     clear           the same for every archetype in index order;
+     clone           clone_events: one EvCP (new last cell <- source cell) per component whose type logs; the checker
+                     (lib/mgrcheck.py Lifecycle.feed, kind CP) wants the destination dead and the source alive and makes
+                     the destination alive.  The model logs the copy of EVERY logging type (a type without clone function
+                     makes cloneEntity fail, and the specification puts that clone out of contract), so clone needs NO
+                     condition on the component table beyond lc_cis_ok (C03_clone_without_clone_function_is_out_of_contract);
+     builder edit    on an entity: the external move of section 4 with the assigned components in the skip mask (their
+                     cells are left unconstructed), then per assignment one EvV at that cell and the afterAssign callback;
+                     on a new entity: Archetype::insert with every component skipped (no event), then the same.
+   The contract of the builder (x_viol = 0: each component named at most once, none both assigned and removed, assigned
+   components new to the entity) is what makes every skipped cell constructed exactly once. *)
+From Mustache.proofs Require Import ManagerExtInv ManagerExtMain LifecycleExtLang LifecycleExtOps LifecycleExtMain.
+
+(* (8a) the history is accepted by the bracket checker and the places alive at the end are exactly the cells of the
+   tracked components of the live entities *)
+Theorem C03_history_brackets_ext : forall typed n cis ops s hs hist,
+  cis_ok cis -> lc_cis_ok cis -> forallb (alpha_e cis) ops = true ->
+  hrun typed n cis ops = Ok (s, hs, hist) -> x_viol (xrun n cis ops) = 0 -> (N.of_nat (length hs) < 16777000)%N ->
+  lc_ok (destroy_pals cis) hist = true /\
+  forall p, In p (lc_live (destroy_pals cis) hist) <-> live_comp_place cis s hs (xrun n cis ops) p.
+Proof. exact history_brackets_ext. Qed.
+Print Assumptions C03_history_brackets_ext.
+
+(* (8b) world destruction after such a script: nothing stays alive *)
+Theorem C03_history_teardown_no_leak_ext : forall typed n cis ops s hs hist s' r,
+  cis_ok cis -> lc_cis_ok cis -> forallb (alpha_e cis) ops = true ->
+  hrun typed n cis ops = Ok (s, hs, hist) -> x_viol (xrun n cis ops) = 0 -> (N.of_nat (length hs) < 16777000)%N ->
+  step s OTeardown = Ok (s', r) ->
+  lc_ok (destroy_pals cis) (hist ++ rev (log s')) = true /\ lc_live (destroy_pals cis) (hist ++ rev (log s')) = [].
+Proof. exact history_teardown_ext. Qed.
+Print Assumptions C03_history_teardown_no_leak_ext.
+
+(* (8c) "at every point": the same after every prefix of the script, teardown included *)
+Theorem C03_history_every_point_ext : forall typed n cis ops1 ops2 s hs hist,
+  cis_ok cis -> lc_cis_ok cis -> forallb (alpha_e cis) (ops1 ++ ops2) = true ->
+  hrun typed n cis (ops1 ++ ops2) = Ok (s, hs, hist) -> x_viol (xrun n cis (ops1 ++ ops2)) = 0 ->
+  (N.of_nat (length hs) < 16777000)%N ->
+  exists s1 hs1 hist1, hrun typed n cis ops1 = Ok (s1, hs1, hist1) /\
+    lc_ok (destroy_pals cis) hist1 = true /\
+    (forall p, In p (lc_live (destroy_pals cis) hist1) <-> live_comp_place cis s1 hs1 (xrun n cis ops1) p) /\
+    (forall s' r, step s1 OTeardown = Ok (s', r) ->
+       lc_ok (destroy_pals cis) (hist1 ++ rev (log s')) = true /\ lc_live (destroy_pals cis) (hist1 ++ rev (log s')) = []).
+Proof. exact history_every_point_ext. Qed.
+Print Assumptions C03_history_every_point_ext.
+
+(* (8d) per operation (the induction step) from a state related to the specification by the invariant of C02's extended
+   refinement (MInvE): the operation's events are accepted from the set of occupied tracked cells and lead to the set of
+   occupied tracked cells of the new state *)
+Theorem C03_operation_preserves_live_cells_ext : forall cis typed s hs al x o s1 out L,
+  MInvE cis s hs al x -> lc_cis_ok cis -> alpha_e cis o = true -> x_viol x = 0 -> x_viol (x_step x o) = 0 ->
+  (N.of_nat (length hs) < 16777000)%N -> step s (concretize typed hs o) = Ok (s1, out) ->
+  (forall p, In p L <-> aplace cis (archs s) p) ->
+  exists evs L', log s1 = rev evs ++ log s /\ bufs s1 = bufs s /\ tmps s1 = tmps s /\
+    lc_run (destroy_pals cis) L evs = Some L' /\ forall p, In p L' <-> aplace cis (archs s1) p.
+Proof. exact LStepE. Qed.
+Print Assumptions C03_operation_preserves_live_cells_ext.
+
+(* (8e) function level, all states: Archetype::cloneEntity logs one copy construction per component whose type logs, from
+   the source slot into the new last slot, and nothing else; initComponent<T>(x) logs one value construction (if the type
+   logs) and the afterAssign callback at the cell the entity is located at *)
+Theorem C03_clone_entity_events : forall s ai src dst sidx s',
+  clone_entity s ai src dst sidx = Ok s' ->
+  exists a, nth_error (archs s) ai = Some a /\
+    log s' = rev (clone_events (cinfos s) ai (length (am_ents a)) sidx (mitems (am_mask a))) ++ log s.
+Proof.
+  intros s ai src dst sidx s' H. destruct (clone_entity_tr _ _ _ _ _ _ H) as (a & Ha & T). exists a. split; [exact Ha|exact (tr_log _ _ _ _ T)].
+Qed.
+Print Assumptions C03_clone_entity_events.
+
+Theorem C03_init_component_events : forall s h0 c z s',
+  init_component_arch s h0 c z = Ok s' ->
+  exists inf l ai, nth_error (cinfos s) c = Some inf /\ nth_error (locs s) (N.to_nat (fst h0)) = Some l /\ l_arch l = Some ai /\
+    log s' = rev ((if ci_ev inf then [EvV (ci_pal inf) (PArch ai c (l_idx l))] else []) ++
+                  (if ci_aa inf then [EvAA (ci_pal inf) (PArch ai c (l_idx l)) h0] else [])) ++ log s.
+Proof.
+  intros s h0 c z s' H. destruct (init_component_tr [] _ _ _ _ _ H) as (inf & l & ai & A & B & C & T & _).
+  exists inf, l, ai. split; [exact A|]. split; [exact B|]. split; [exact C|exact (tr_log _ _ _ _ T)].
+Qed.
+Print Assumptions C03_init_component_events.
+
+(* ---- non-vacuity -------------------------------------------------------------------------------- *)
+(* hx_cis (section 5): 0 trivial, 1 instrumented (palette 2), 2 instrumented with afterAssign/beforeRemove (palette 3),
+   3 described at run time and tracked (palette 8).
+   #0 #1 = {1,2}; #2 = clone of #0 (instrumented components of palettes 2 and 3: two EvCP); #3 = {0,3}; #4 = {1} with a
+   deferred destroy (it is still written afterwards); a builder edit gives #3 the components 1 and 2 and takes 3 away
+   (external move, EvD of palette 8, two EvV and one afterAssign); update applies the deferred destroy of #4;
+   clearArchetype empties {1,2} with its three members #0 #1 #2 (six EvD); a builder creates #5 = {2,3}; #6 = clone of the
+   edited #3; clear() destroys everything; life afterwards: #7 = {1,2} edited to {2,3}. *)
+Definition ex_script : list xop :=
+  [XoCreate 0 6%N [] false; XoCreate 0 6%N [] false; XoClone 0;
+   XoCreate 0 9%N [] false;
+   XoCreate 0 2%N [] false; XoDestroy 0 4; XoSet 4 1 5%Z;
+   XoBuild 0 (Some 3) [(1, 11%Z); (2, 22%Z)] [3];
+   XoUpdate;
+   XoClearArch 6%N [];
+   XoBuild 0 None [(2, 33%Z); (3, 9%Z)] [];
+   XoClone 3;
+   XoClear;
+   XoCreate 0 6%N [] false; XoBuild 0 (Some 7) [(3, 1%Z)] [1]].
+
+Example C03_history_ext_nonvacuous :
+  cis_ok hx_cis /\ lc_cis_ok hx_cis /\ forallb (alpha_e hx_cis) ex_script = true /\ x_viol (xrun 1 hx_cis ex_script) = 0 /\
+  (forall typed, refines_on typed 1 hx_cis ex_script = true) /\
+  (* just before clear(): #3 (edited) and its clone #6 in archetype {0,1,2}, #5 in {2,3} *)
+  (exists s hs hist s' r,
+     hrun true 1 hx_cis (firstn 12 ex_script) = Ok (s, hs, hist) /\
+     hs = [(0, 0); (1, 0); (2, 0); (3, 0); (4, 0); (2, 1); (1, 1)]%N /\
+     map (is_valid s) hs = [false; false; false; true; false; true; true] /\
+     map am_mask (archs s) = [6; 9; 2; 7; 12]%N /\
+     map am_ents (archs s) = [[]; []; []; [(3, 0); (1, 1)]; [(2, 1)]]%N /\
+     hist = [EvC 2 (PArch 0 1 0); EvC 3 (PArch 0 2 0); EvAA 3 (PArch 0 2 0) (0, 0)%N;
+             EvC 2 (PArch 0 1 1); EvC 3 (PArch 0 2 1); EvAA 3 (PArch 0 2 1) (1, 0)%N;
+             (* clone of #0 *)
+             EvCP 2 (PArch 0 1 2) (PArch 0 1 0); EvCP 3 (PArch 0 2 2) (PArch 0 2 0);
+             EvC 8 (PArch 1 3 0); EvC 2 (PArch 2 1 0);
+             (* builder edit of #3: component 3 is not moved and dies with the vacated slot; 1 and 2 are constructed from values *)
+             EvD 8 (PArch 1 3 0); EvV 2 (PArch 3 1 0); EvV 3 (PArch 3 2 0); EvAA 3 (PArch 3 2 0) (3, 0)%N;
+             (* update: the deferred destroy of #4 *)
+             EvD 2 (PArch 2 1 0);
+             (* clearArchetype {1,2}: three members *)
+             EvD 2 (PArch 0 1 0); EvD 2 (PArch 0 1 1); EvD 2 (PArch 0 1 2);
+             EvD 3 (PArch 0 2 0); EvD 3 (PArch 0 2 1); EvD 3 (PArch 0 2 2);
+             (* builder creation of #5 *)
+             EvV 3 (PArch 4 2 0); EvAA 3 (PArch 4 2 0) (2, 1)%N; EvV 8 (PArch 4 3 0);
+             (* clone of #3 *)
+             EvCP 2 (PArch 3 1 1) (PArch 3 1 0); EvCP 3 (PArch 3 2 1) (PArch 3 2 0)] /\
+     lc_ok (destroy_pals hx_cis) hist = true /\
+     lc_live (destroy_pals hx_cis) hist = [PArch 3 2 1; PArch 3 1 1; PArch 4 3 0; PArch 4 2 0; PArch 3 2 0; PArch 3 1 0] /\
+     step s OTeardown = Ok (s', r) /\ count_ev is_dtor (rev (log s')) = 6 /\
+     lc_live (destroy_pals hx_cis) (hist ++ rev (log s')) = []) /\
+  (* the whole script *)
+  (forall typed, exists s hs hist s' r,
+     hrun typed 1 hx_cis ex_script = Ok (s, hs, hist) /\ (N.of_nat (length hs) < 16777000)%N /\
+     hs = [(0, 0); (1, 0); (2, 0); (3, 0); (4, 0); (2, 1); (1, 1); (2, 2)]%N /\
+     map am_ents (archs s) = [[]; []; []; []; [(2, 2)]]%N /\
+     length hist = 39 /\ count_ev is_dtor hist = 16 /\
+     lc_ok (destroy_pals hx_cis) hist = true /\
+     lc_live (destroy_pals hx_cis) hist = [PArch 4 3 0; PArch 4 2 0] /\
+     step s OTeardown = Ok (s', r) /\ lc_live (destroy_pals hx_cis) (hist ++ rev (log s')) = []).
+Proof.
+  split; [exact (proj1 hx_cis_ok)|]. split; [exact (proj2 hx_cis_ok)|]. split; [vm_compute; reflexivity|].
+  split; [vm_compute; reflexivity|]. split; [intros typed; destruct typed; vm_compute; reflexivity|].
+  split; [do 5 eexists; ex_tac|]. intros typed. destruct typed; do 5 eexists; ex_tac.
+Qed.
+
+(* the hypotheses of the per-operation theorem (8d) on a reachable state: the state before the builder edit of #3 *)
+Example C03_operation_ext_nonvacuous : exists s hs hist al x s1 out,
+  hrun true 1 hx_cis (firstn 7 ex_script) = Ok (s, hs, hist) /\ x = xrun 1 hx_cis (firstn 7 ex_script) /\
+  MInvE hx_cis s hs al x /\ alpha_e hx_cis (XoBuild 0 (Some 3) [(1, 11%Z); (2, 22%Z)] [3]) = true /\ x_viol x = 0 /\
+  x_viol (x_step x (XoBuild 0 (Some 3) [(1, 11%Z); (2, 22%Z)] [3])) = 0 /\ (N.of_nat (length hs) < 16777000)%N /\
+  step s (concretize true hs (XoBuild 0 (Some 3) [(1, 11%Z); (2, 22%Z)] [3])) = Ok (s1, out) /\
+  (forall p, In p (lc_live (destroy_pals hx_cis) hist) <-> aplace hx_cis (archs s) p).
+Proof.
+  assert (E8 : exists r, hrun true 1 hx_cis (firstn 7 ex_script ++ [XoBuild 0 (Some 3) [(1, 11%Z); (2, 22%Z)] [3]]) = Ok r)
+    by (eexists; vm_compute; reflexivity).
+  destruct E8 as (r8 & E8). apply hrun_snoc in E8. destruct E8 as (s & hs & hist & E & Hs).
+  unfold hstep in Hs. apply bind_ok in Hs. destruct Hs as ((s1, out) & Hst & _).
+  assert (Ha : forallb (alpha_e hx_cis) (firstn 7 ex_script) = true) by (vm_compute; reflexivity).
+  assert (Hb : within (length hs)).
+  { assert (El : length hs = 5) by (apply (f_equal (fun r => match r with Ok (_, hs0, _) => length hs0 | Err _ => 0 end)) in E;
+      vm_compute in E; symmetry; exact E). rewrite El. vm_compute. reflexivity. }
+  assert (Hv : x_viol (xrun 1 hx_cis (firstn 7 ex_script)) = 0) by (vm_compute; reflexivity).
+  destruct (hrun_HInvE true 1 hx_cis (firstn 7 ex_script) s hs hist (proj1 hx_cis_ok) (proj2 hx_cis_ok) Ha E Hv Hb)
+    as (al & [HE _ _ _ (L & Hr & HL)]).
+  exists s, hs, hist, al, (xrun 1 hx_cis (firstn 7 ex_script)), s1, out. split; [exact E|]. split; [reflexivity|]. split; [exact HE|].
+  split; [vm_compute; reflexivity|]. split; [vm_compute; reflexivity|]. split; [vm_compute; reflexivity|]. split; [exact Hb|]. split; [exact Hst|].
+  unfold lc_live. rewrite Hr. exact HL.
+Qed.
+
+(* (8e) on concrete states: the clone of entity 0 of sA (section 3: archetype 0 = {0,1,2} with three members) into a
+   new fourth slot, and initComponent of component 1 of entity 3 *)
+Example C03_ex_clone_entity : exists s1 d s',
+  create_id sA = Ok (s1, d) /\ clone_entity s1 0 (h 0) d 0 = Ok s' /\
+  rev (new_log s1 s') = [EvCP 2 (PArch 0 1 3) (PArch 0 1 0); EvCP 3 (PArch 0 2 3) (PArch 0 2 0)] /\
+  clone_events (cinfos sA) 0 3 0 (mitems 7%N) = [EvCP 2 (PArch 0 1 3) (PArch 0 1 0); EvCP 3 (PArch 0 2 3) (PArch 0 2 0)].
+Proof. do 3 eexists. ex_tac. Qed.
+
+Example C03_ex_init_component : exists s',
+  init_component_arch sA (h 3) 1 7%Z = Ok s' /\ new_log sA s' = [EvV 2 (PArch 1 1 0)].
+Proof. eexists. ex_tac. Qed.
+
+(* clone needs no condition on the component table: a run-time described type (no clone function; C interface) makes
+   Archetype::cloneEntity fail in the model, and the specification counts that clone as out of contract *)
+Example C03_clone_without_clone_function_is_out_of_contract :
+  let ops := [XoCreate 0 8%N [] false; XoClone 0] in
+  cis_ok hx_cis /\ forallb (alpha_e hx_cis) ops = true /\ x_viol (xrun 1 hx_cis ops) = 1 /\
+  hrun true 1 hx_cis ops = Err EmptyFunction.
+Proof. split; [exact (proj1 hx_cis_ok)|]. vm_compute. repeat split. Qed.
